@@ -235,7 +235,11 @@ def rich_examples(rnd):
         # same shape, varying fragments: letters-sep-digits
         sep = rnd.choice(['-', '_', '.', ' ', '/', ':', '^', '-^', '\\', ']', '|'])
         L = rnd.sample(alpha, 3)
-        D = rnd.choice([['1', '2', '3'], ['٣', '٤'], ['²', '³'], ['1', '٣'], ['a', '1']])
+        D = rnd.choice([['1', '2', '3'], ['٣', '٤'], ['²', '³'], ['1', '٣'], ['a', '1'],
+                        # numeric but not digits: letter-numbers, vulgar fractions, CJK numerals
+                        ['Ⅷ', 'Ⅸ'], ['½', '¾'], ['三', '五'], ['Ⅷ', '1']])
+        if rnd.random() < 0.3:
+            sep = ''           # the second fragment follows the letters directly (one alphanumeric run)
         out = [''.join(rnd.choice(L) for _ in range(rnd.randint(1, 3))) + sep +
                ''.join(rnd.choice(D) for _ in range(rnd.randint(1, 3))) for _ in range(n)]
     elif mode == 'tails':
@@ -265,6 +269,9 @@ def rich_examples(rnd):
             rnd.shuffle(out)
     else:
         out = [rnd.choice(WORDS) + rnd.choice(['', rnd.choice(alpha)]) for _ in range(n)]
+    if rnd.random() < 0.15:
+        # whitespace-only and empty examples (they matter under strip / remove_empties)
+        out.insert(rnd.randrange(len(out) + 1), rnd.choice(['  ', '\t', ' \u00a0', '', '', ' ']))
     if rnd.random() < 0.2:
         out.append(None)
     return out
